@@ -7,7 +7,7 @@ CALLEE_SAVED = ["s0", "s1", "s2", "s3", "s4", "s5", "s6", "s7", "s8", "s9", "s10
 RV32E_REGS = {"zero", "x0", "ra", "sp", "gp", "tp", "t0", "t1", "t2", "s0", "s1", "a0", "a1", "a2", "a3", "a4", "a5"}
 
 
-def run_one(prog, labels, words, first_round, xlen, rv32e):
+def run_one(prog, labels, words, first_round, xlen, rv32e, entry="ascon_permute"):
     T = U32 if xlen == 32 else U64
     ws = xlen // 8
     N = words.shape[1]
@@ -49,7 +49,7 @@ def run_one(prog, labels, words, first_round, xlen, rv32e):
 
     def imm(s):
         return int(s, 0)
-    pc, steps = labels["ascon_permute"], 0
+    pc, steps = labels[entry], 0
     mask = (1 << xlen) - 1
     while True:
         if pc >= len(prog):
@@ -148,6 +148,7 @@ def run(rep, variant, X, tier):
         for pmsg in sorted(set(problems))[:4]:
             rep.fail("abi", "first_round=%d: %s" % (fr, pmsg))
         total += X.shape[1]
+    total += second_entry(rep, labels, lambda: run_one(prog, labels, words, 0, xlen, rv32e, entry="ascon_backend_free")[::2], words)
     rep.stat("evaluations", total)
     rep.stat("nontrivial", total)
     print("SAMPLE emulated %s: %d instructions, %d states x 12 starting rounds, callee-saved registers / sp / load-store bounds checked" % (variant, len(prog), X.shape[1]))
